@@ -64,8 +64,9 @@ func getParentNameAndOrdinal(pod *v1.Pod) (string, int) {
 	if len(subMatches) < 3 {
 		return parent, ordinal
 	}
-	parent = subMatches[1]
-	if i, err := strconv.ParseInt(subMatches[2], 10, 32); err == nil {
+	// only the canonical decimal form names an ordinal: foo-01 is not the Pod of ordinal 1 (that one is foo-1)
+	if i, err := strconv.ParseInt(subMatches[2], 10, 32); err == nil && strconv.FormatInt(i, 10) == subMatches[2] {
+		parent = subMatches[1]
 		ordinal = int(i)
 	}
 	return parent, ordinal
